@@ -82,7 +82,7 @@ Theorem prefix_join : forall p s,
 Proof. exact join_prefix_cases. Qed.
 Print Assumptions prefix_join.
 
-(* response processors run in reverse order *)
+(* response processors are CALLED in reverse order (the values they pass on: theorems R1-R5 below) *)
 Theorem response_reverse_order : forall addr sids ads p meth params data d,
   q_resp (snd (assemble addr sids ads p meth params data d)) = rev (tags ads).
 Proof. exact assemble_resp. Qed.
@@ -155,12 +155,13 @@ Proof. intros. split; [apply assemble_body|apply assemble_method]. Qed.
 Print Assumptions body_encoding.
 
 (* reading [spec_of] backwards: a successful request IS "adapters, then assemble" on the caller's values *)
-Theorem spec_inversion : forall h addr sids ads q cap,
-  spec_of h addr sids ads q = Ok cap ->
+Theorem spec_inversion : forall h addr sids ads q cap v,
+  spec_of h addr sids ads q = Ok (cap, v) ->
   exists d0 p d params data,
     init_dict h (a_headers q) = Ok d0 /\ adapters_pre ads (a_path q, d0) = Ok (p, d) /\
     read_params h (a_params q) = Ok params /\ read_body h (a_data q) = Ok data /\
-    cap = snd (assemble addr sids ads p (a_meth q) params data d).
+    cap = snd (assemble addr sids ads p (a_meth q) params data d) /\
+    respond ads (a_raw q) (a_resp q) = Ok v.
 Proof. exact spec_of_inv. Qed.
 Print Assumptions spec_inversion.
 
@@ -237,21 +238,21 @@ Print Assumptions json_body.
 (* end to end: EVERY successful request through a connection of a reachable state whose whole chain holds
    exactly one authenticating adapter carries exactly one Authorization header, with that adapter's value
    (that the caller did not pass the key himself follows from success: the adapter asserts it) *)
-Theorem request_one_auth : forall st i c q ra cap ads1 a ads2 ak sk v,
+Theorem request_one_auth : forall st i c q ra cap rv ads1 a ads2 ak sk v,
   reachable st -> nth_error (conns st) i = Some c -> resolve st q = Ok ra ->
   flat_own c = ads1 ++ a :: ads2 -> auth_value a = Some (ak, sk, v) ->
   Forall (fun x => is_auth x = false) ads1 -> Forall (fun x => is_auth x = false) ads2 ->
-  snd (step st (ORequest i q)) = Ok (OReq cap) ->
+  snd (step st (ORequest i q)) = Ok (OReq cap rv) ->
   dict_get basic_set_key (q_headers cap) = Some v /\ NoDup (map fst (q_headers cap)).
-Proof. intros st i c q ra cap ads1 a ads2 ak sk v R. apply request_one_auth_l. apply reachable_wf. exact R. Qed.
+Proof. intros st i c q ra cap rv ads1 a ads2 ak sk v R. apply request_one_auth_l. apply reachable_wf. exact R. Qed.
 Print Assumptions request_one_auth.
 
 (* ... and goes to address + prefixes of the whole chain (inner ones outermost) + path (+ '?' + url-encoded
    params), with the body encoded by its type, the method upper-cased or defaulted, the response processors
    run in reverse order of the chain *)
-Theorem request_shape : forall st i c q ra cap,
+Theorem request_shape : forall st i c q ra cap rv,
   reachable st -> nth_error (conns st) i = Some c -> resolve st q = Ok ra ->
-  snd (step st (ORequest i q)) = Ok (OReq cap) ->
+  snd (step st (ORequest i q)) = Ok (OReq cap rv) ->
   exists params data,
     read_params (heap_of st) (a_params ra) = Ok params /\ read_body (heap_of st) (a_data ra) = Ok data /\
     let p := fold_left (fun s pre => join_prefix pre s) (prefixes (flat_own c)) (a_path ra) in
@@ -269,8 +270,91 @@ Theorem request_shape : forall st i c q ra cap,
                    | None => default_method data
                    end /\
     q_resp cap = rev (tags (flat_own c)).
-Proof. intros st i c q ra cap R. apply request_shape_l. apply reachable_wf. exact R. Qed.
+Proof. intros st i c q ra cap rv R. apply request_shape_l. apply reachable_wf. exact R. Qed.
 Print Assumptions request_shape.
+
+(* ------------------------------------------------------------------ *)
+(* the response path: "response processors in reverse order", for the   *)
+(* VALUE returned to the caller.  [respond ads raw resp] (C17/Model.v)   *)
+(* is everything behind the opener call: HTTPError for error statuses,   *)
+(* else the base value -- raw_response=True: the response object itself; *)
+(* False: '' for an empty body, json.loads of the utf-8 text otherwise -- *)
+(* threaded through process_response of every adapter of [ads].  The     *)
+(* four adapters of conn_http.py keep RequestAdapter's identity; the     *)
+(* harness's tag adapter wraps (RMark k v), so [marks v] lists who        *)
+(* processed v, outermost (= last to run) first.                          *)
+
+(* R1. respond_chain (all adapter lists, raw or not, all answers): the loop runs over the reversed list, i.e.
+   the first adapter's processor is outermost; every processor of the list is applied exactly once -- the
+   marks around the returned value are the tags of the list, in list order -- and what is inside the marks
+   is the base value, which no processor made *)
+Theorem respond_chain : forall ads raw resp v, respond ads raw resp = Ok v ->
+  exists b, r_code resp < 400 /\ response_base raw resp = Ok b /\ is_base b /\
+    v = fold_left (fun v a => adapter_post a v) (rev ads) b /\
+    v = fold_right adapter_post b ads /\
+    marks v = tags ads /\ unmarked v = b.
+Proof. exact respond_chain_l. Qed.
+Print Assumptions respond_chain.
+
+(* R2. raw and decoded responses alike: the same processors, the same order; only the base value differs *)
+Theorem raw_and_decoded_alike : forall ads resp,
+  (forall v, respond ads true resp = Ok v ->
+     marks v = tags ads /\ unmarked v = RRaw (r_code resp) (r_body resp)) /\
+  (forall v, respond ads false resp = Ok v ->
+     marks v = tags ads /\
+     ((decode_utf8 (r_body resp) = Some [] /\ unmarked v = RText []) \/
+      (exists js, r_json resp = Some js /\ unmarked v = RJson js))) /\
+  (forall b1 b2, response_base true resp = Ok b1 -> response_base false resp = Ok b2 -> r_code resp < 400 ->
+     respond ads true resp = Ok (fold_right adapter_post b1 ads) /\
+     respond ads false resp = Ok (fold_right adapter_post b2 ads)).
+Proof.
+  intros ads resp. split; [|split].
+  - intros v H. destruct (respond_chain_l _ _ _ _ H) as (b & _ & E & _ & _ & _ & M & U).
+    destruct (response_base_cases _ _ _ E) as [_ ->]. auto.
+  - intros v H. destruct (respond_chain_l _ _ _ _ H) as (b & _ & E & _ & _ & _ & M & U).
+    destruct (response_base_cases _ _ _ E) as [_ [[D ->]|(c & s & js & D & J & ->)]]; rewrite U; eauto.
+  - intros b1 b2 E1 E2 L. rewrite !respond_spec, E1, E2.
+    destruct (Z.leb_spec 400 (r_code resp)); [lia|]. split; reflexivity.
+Qed.
+Print Assumptions raw_and_decoded_alike.
+
+(* R3. processors of a wrapping connection run after (around) those of the connection it wraps *)
+Theorem response_chain_app : forall own parent b,
+  post_chain (own ++ parent) b = post_chain own (post_chain parent b) /\
+  forall ads, post_chain ads b = fold_right adapter_post b ads /\ post_loop ads b = post_chain ads b.
+Proof. intros. split; [apply post_chain_app|]. intros ads. split; [reflexivity|apply post_loop_chain]. Qed.
+Print Assumptions response_chain_app.
+
+(* R4. an error status: HTTPError whatever the chain and raw_response; nothing is returned *)
+Theorem http_error_raises : forall ads raw resp, 400 <= r_code resp -> respond ads raw resp = Err OtherErr.
+Proof. exact http_error_l. Qed.
+Print Assumptions http_error_raises.
+
+(* R5. response_processed_once_reverse, end to end: EVERY successful request through a connection of a reachable
+   state -- raw_response True or False -- returns the base value processed by every adapter of the WHOLE chain
+   exactly once, over the reversed chain (the outermost connection's own adapters last = outermost) *)
+Theorem response_processed_once_reverse : forall st i c q ra cap v,
+  reachable st -> nth_error (conns st) i = Some c -> resolve st q = Ok ra ->
+  snd (step st (ORequest i q)) = Ok (OReq cap v) ->
+  exists b, response_base (a_raw ra) (a_resp ra) = Ok b /\ is_base b /\
+    v = fold_left (fun v a => adapter_post a v) (rev (flat_own c)) b /\
+    v = post_chain (flat_own c) b /\
+    marks v = tags (flat_own c) /\ unmarked v = b /\
+    q_resp cap = rev (tags (flat_own c)).
+Proof. intros st i c q ra cap v R. apply response_processed_l. apply reachable_wf. exact R. Qed.
+Print Assumptions response_processed_once_reverse.
+
+(* ... and the same for a wrapper method with components (the prefix adapter of the component does not
+   process responses) *)
+Theorem wrapper_response_processed : forall st i m comps q ra cap v,
+  reachable st -> nth_error (callers st) i = Some m -> resolve st q = Ok ra ->
+  snd (step st (OCall i comps q)) = Ok (OReq cap v) ->
+  exists pre b, comp_chain (m_map m) comps = Ok pre /\
+    response_base (a_raw ra) (a_resp ra) = Ok b /\ is_base b /\
+    v = post_chain (pre ++ flat_own (m_conn m)) b /\
+    marks v = tags (flat_own (m_conn m)) /\ unmarked v = b.
+Proof. intros st i m comps q ra cap v R. apply call_response_processed_l. apply reachable_wf. exact R. Qed.
+Print Assumptions wrapper_response_processed.
 
 (* ------------------------------------------------------------------ *)
 (* add_adapter as an operation like any other (C17/LemmasAdd.v).        *)
@@ -382,7 +466,9 @@ Print Assumptions same_objects_reused.
 (* non-vacuity: concrete programs                                       *)
 
 Definition ex_addr : str := [104;116;116;112;58;47;47;104].                         (* http://h *)
-Definition ex_q : reqspec := {| s_meth := MVerb 1; s_path := [47;97]; s_params := Some 1%nat; s_data := Some 2%nat; s_headers := Some 0%nat |}.
+Definition ex_resp : response := {| r_code := 200; r_body := [123;125]; r_json := Some [123;125] |}.   (* 200, b'{}' *)
+Definition ex_q : reqspec := {| s_meth := MVerb 1; s_path := [47;97]; s_params := Some 1%nat; s_data := Some 2%nat; s_headers := Some 0%nat;
+                                s_raw := false; s_resp := ex_resp |}.
 Definition ex_prog : list op :=
   [ ONewHeaders [([65], HStr [66])];                      (* {'A': 'B'} *)
     ONewParams [([107], [118;32])];                       (* {'k': 'v '} *)
@@ -404,7 +490,7 @@ Print Assumptions reachable_example.
    after are the same *)
 Example clone_request_example :
   match snd (step (fst (run_ops init ex_prog)) (OCall 1 (Some [[99]]) ex_q)) with
-  | Ok (OReq cap) =>
+  | Ok (OReq cap _) =>
       q_url cap = ex_addr ++ [47;97;112;105;47] ++ [105;110] ++ [47;99] ++ [47;97] ++ [63;107;61;118;43] /\   (* http://h/api/in/c/a?k=v+ *)
       dict_get basic_set_key (q_headers cap) = Some (HBytes ([66;97;115;105;99;32] ++ [100;84;112;119])) /\   (* Basic dTpw *)
       dict_get (capitalize x_tag) (q_headers cap) = Some (HStr [120]) /\
@@ -444,8 +530,9 @@ Print Assumptions auth_decode_example.
 Example falsy_bodies_example :
   let st := fst (run_ops init (ex_prog ++ [ONewBody (BStr []); ONewBody (BBytes []); ONewBody (BJson [48] false);
                                            ONewBody (BJson [91;93] false)])) in
-  let q n := {| s_meth := MRaw None; s_path := [47;97]; s_params := None; s_data := Some n; s_headers := None |} in
-  let data n := match snd (step st (ORequest 1 (q n))) with Ok (OReq cap) => Some (q_data cap, q_method cap,
+  let q n := {| s_meth := MRaw None; s_path := [47;97]; s_params := None; s_data := Some n; s_headers := None;
+               s_raw := false; s_resp := ex_resp |} in
+  let data n := match snd (step st (ORequest 1 (q n))) with Ok (OReq cap _) => Some (q_data cap, q_method cap,
                    dict_get (capitalize ctype_set_key) (q_headers cap)) | _ => None end in
   data 4%nat = Some (Some [], [71;69;84], None) /\ data 5%nat = Some (Some [], [71;69;84], None) /\
   data 6%nat = Some (Some [48], [71;69;84], Some (HStr ctype_val)) /\
@@ -474,7 +561,33 @@ Print Assumptions add_on_clone_example.
 Example derived_after_add_inherits :
   let st := fst (run_ops init (ex_prog ++ [OAddAdapter 0 (ATag 121); OConn (WHttp ADNone) (CDConn 0)])) in
   let tag i := match snd (step st (ORequest i ex_q)) with
-               | Ok (OReq cap) => dict_get (capitalize x_tag) (q_headers cap) | _ => None end in
+               | Ok (OReq cap _) => dict_get (capitalize x_tag) (q_headers cap) | _ => None end in
   tag 4%nat = Some (HStr [121]) /\ tag 0%nat = Some (HStr [121]) /\ tag 1%nat = None /\ tag 3%nat = Some (HStr [120]).
 Proof. vm_compute. repeat split. Qed.
 Print Assumptions derived_after_add_inherits.
+
+(* the response path through a three-adapter chain [tag a; tag b] (outer connection) ++ [tag c] (inner):
+   processors ran c, b, a; the value is a(b(c(base))) -- for the decoded body, for the raw response, for an
+   empty body alike; an error status raises; a body that is not json raises ValueError only when decoding is asked for *)
+Definition ex_rprog : list op :=
+  [ ONewList [ATag 97; ATag 98];
+    OConn (WHttp (ADSingle (ATag 99))) (CDAddr ex_addr);
+    OConn (WHttp (ADList 0)) (CDConn 0) ].
+Definition ex_rq (raw : bool) (resp : response) : reqspec :=
+  {| s_meth := MVerb 0; s_path := [47;97]; s_params := None; s_data := None; s_headers := None; s_raw := raw; s_resp := resp |}.
+Example response_example :
+  let st := fst (run_ops init ex_rprog) in
+  let ret raw resp := match snd (step st (ORequest 1 (ex_rq raw resp))) with
+                      | Ok (OReq cap v) => Ok (q_resp cap, v) | Ok OUnit => Err OtherErr | Err e => Err e end in
+  let wrap b := RMark 97 (RMark 98 (RMark 99 b)) in
+  reachable st /\
+  ret false ex_resp = Ok ([99; 98; 97], wrap (RJson [123;125])) /\
+  ret true ex_resp = Ok ([99; 98; 97], wrap (RRaw 200 [123;125])) /\
+  ret false {| r_code := 204; r_body := []; r_json := None |} = Ok ([99; 98; 97], wrap (RText [])) /\
+  ret true {| r_code := 204; r_body := []; r_json := None |} = Ok ([99; 98; 97], wrap (RRaw 204 [])) /\
+  ret true {| r_code := 404; r_body := [123;125]; r_json := Some [123;125] |} = Err OtherErr /\
+  ret false {| r_code := 200; r_body := [104;105]; r_json := None |} = Err ValueErr /\
+  ret true {| r_code := 200; r_body := [104;105]; r_json := None |} = Ok ([99; 98; 97], wrap (RRaw 200 [104;105])) /\
+  ret false {| r_code := 200; r_body := [255]; r_json := None |} = Err ValueErr.
+Proof. split; [exists ex_rprog; split; [repeat constructor|reflexivity]|vm_compute; repeat split]. Qed.
+Print Assumptions response_example.
